@@ -234,7 +234,8 @@ where
 
     entity_identifiers: &'a mut (*mut entity::Identifier, usize),
     components: &'a mut [(*mut u8, usize)],
-    length: usize,
+    /// The number of rows stored in the columns. Incremented once this row is stored completely.
+    length: &'a mut usize,
 }
 
 impl<'a, 'de, R> DeserializeRow<'a, 'de, R>
@@ -249,7 +250,7 @@ where
         identifier: archetype::IdentifierRef<R>,
         entity_identifiers: &'a mut (*mut entity::Identifier, usize),
         components: &'a mut [(*mut u8, usize)],
-        length: usize,
+        length: &'a mut usize,
     ) -> Self {
         Self {
             lifetime: PhantomData,
@@ -306,7 +307,7 @@ where
                     unsafe {
                         Vec::from_raw_parts(
                             self.0.entity_identifiers.0,
-                            self.0.length,
+                            *self.0.length,
                             self.0.entity_identifiers.1,
                         )
                     },
@@ -327,13 +328,19 @@ where
                 unsafe {
                     R::deserialize_components_by_row(
                         self.0.components,
-                        self.0.length,
+                        *self.0.length,
                         &mut seq,
                         self.0.identifier.iter(),
                         0,
                         self.0.identifier,
                     )
                 }?;
+
+                // The row is stored completely. This is recorded here, and not by the caller after
+                // the row has been deserialized, because the deserializer may still fail after
+                // this visitor has returned (for example on surplus elements in the row); the
+                // components of this row must then be dropped with the rest.
+                *self.0.length += 1;
 
                 Ok(())
             }
@@ -424,7 +431,7 @@ where
                                 self.0.identifier.as_ref(),
                                 &mut entity_identifiers,
                                 &mut components,
-                                vec_length,
+                                &mut vec_length,
                             )
                         },
                     );
@@ -450,13 +457,10 @@ where
 
                         return Err(error);
                     }
-                    if let Some(()) =
-                        // SAFETY: If the `result` was an `Err` variant, the function would have
-                        // returned in the previous `if` block.
-                        unsafe { result.unwrap_unchecked() }
-                    {
-                        vec_length += 1;
-                    } else {
+                    if
+                    // SAFETY: If the `result` was an `Err` variant, the function would have
+                    // returned in the previous `if` block.
+                    unsafe { result.unwrap_unchecked() }.is_none() {
                         drop(
                             // SAFETY: `entity_identifiers` contains the raw parts for a valid
                             // `Vec<entity::Identifier>` of size `vec_length`.
